@@ -10,15 +10,16 @@ PID = "C10"
 DRIVER = [("C10", "TfPwaV.Gen.PhspF", "PhspF.handle")]
 LEAN_TARGETS = ["TfPwaV.Props.C10", "TfPwaV.Props.C10b", "TfPwaV.Gen.PhspF", "TfPwaV.Gen.KinF"]
 PROP_MODULES = ["TfPwaV.Props.C10", "TfPwaV.Props.C10b"]
-ALL_MODULES = ["TfPwaV.Proofs.Phsp", "TfPwaV.Proofs.PhspMom", "TfPwaV.Proofs.PhspTree", "TfPwaV.Props.C10", "TfPwaV.Props.C10b", "TfPwaV.Proofs.Kin", "TfPwaV.Proofs.ScalarR"]
+ALL_MODULES = ["TfPwaV.Proofs.Phsp", "TfPwaV.Proofs.PhspMom", "TfPwaV.Proofs.PhspTree", "TfPwaV.Proofs.PhspShell", "TfPwaV.Props.C10", "TfPwaV.Props.C10b", "TfPwaV.Proofs.Kin", "TfPwaV.Proofs.ScalarR"]
 ASSUMPTIONS = [
     "uniform random numbers are an INPUT of the model (lists of draws, one per tf.random.uniform call); the harness replaces tf.random.uniform in its own process by a seeded stream and feeds the same numbers to the Float instance of templates/Phsp.lean.in",
     "theorems are over the reals for the model with r32 = id, i.e. get_p evaluated in double precision for Python-float arguments (the tree after fix_getp_float32.diff); on a tree where get_p rounds p2 through float32 the Float model reproduces that rounding (observed by the harness) and the deviation is reported by the search under the key get_p:float32-python-scalars",
     "acceptance weight in [0,1] is proved on the domain the generator itself produces (every uniform number in [0,1]); on the bare box get_mass_range() the bound is false (counter-example theorem weight_exceeds_one_off_domain) - only cal_max_weight() evaluates weights there",
     "on-shell / momentum-sum theorems: exact over the reals; the mass-shell clause for boosted particles needs the regular branch of LorentzVector.boost (1e-14 < |v|^2 < 1), the momentum sum does not",
-    "nested chains: the momentum sum is proved for every nesting (chain_momentum_sum); the mass-shell clause is proved for one tree_boost step on an arbitrary sub-forest (chain_on_shell_partial), its composition over the whole tree is validated by correspondence and search (structures up to depth 4)",
+    "nested chains: momentum sum (chain_momentum_sum), mass shells of all final particles (chain_on_shell), every intermediate state on its fixed mass shell and equal to the sum of the momenta below it (chain_structure, chain_intermediate_mass) are proved for EVERY nesting by structural induction, assuming each node's generator output adds up to (m_node,0,0,0), is on the daughters' mass shells with positive energies, and the momentum of every nested daughter is in the regular boost branch 1e-14 < |v|^2 < 1",
     "NOT proved, validated only: termination of the refill loop with probability 1; statistical flatness of the accepted sample (chi^2 tests of the Dalitz plot and of mass spectra against independently integrated phase-space spectra, false-alarm probability <= 1e-9 per test in the chi^2 approximation); IEEE rounding (double-precision clauses are checked on the implementation with stated tolerances)",
-    "mass_generator[i] (user-supplied mass proposals) and cal_max_weight() (scipy optimiser) are outside the model; cal_max_weight is exercised by the search only",
+    "mass_generator[i] (user-supplied proposal for the i-th intermediate mass, used by config_loader/sample.py to importance-sample resonances) is outside the model: the code draws M_{i+1} from an arbitrary user distribution g_i and mass_importances applies NO 1/g_i correction (the `else: pass` branch), so by design the accepted events follow prod q_i * prod g_i, not flat phase space; the consumer reweights. What still applies: weight_le_one holds for ANY mass point of the domain M_i + r_{i+1} <= M_{i+1} <= b_i however it was drawn (a user generator that leaves [a,b] is not covered); momentum_sum / on_shell do not depend on how masses were drawn",
+    "cal_max_weight() (optional, cal_max=True paths): modelled as m_wtMax *= 1.001 * get_weight(x*) with the point x* returned by scipy.optimize.minimize as a PARAMETER (calWtMax, getWeightCal; correspondence feeds the recorded x*). Proved: it only rescales the weight (calmax_rescales) and weight <= 1 afterwards IFF x* is within 0.1% of the global maximum (calmax_weight_le_one_iff), with an explicit counter-example for a non-optimal x*. That scipy finds the global maximum is NOT verified and is in fact often false on the implementation (L-BFGS-B with absolute pgtol=1e-5 on a function of size <= 1e-3 stops at its random start for n >= 5; NaN/flat starts for massless or near-threshold decays; the optimiser also roams the unphysical part of the mass_range box): e.g. PhaseSpaceGenerator(m0, 6 daughters with Q/m0 = 0.46).cal_max_weight() shrinks wtMax by 1e-19 and weights reach 1e15. This is reported as a candidate finding (key cal_max_weight:weight-range), not alarmed by default (default paths never call cal_max_weight); VERIF_C10_CALMAX=1 adds the scan to the search",
 ]
 
 MASS_CHOICES = [0.0, 0.000511, 0.139, 0.493, 0.938, 1.5]
@@ -212,7 +213,7 @@ def correspond(ctx, res):
     bad = []
     stats = {"worst": {}, "skipped": 0, "n": {}}
 
-    def cmp(tag, impl, tol, scale=1.0, info=None):
+    def cmp(tag, impl, tol, scale=1.0, info=None, pre=None):
         impl = np.asarray(impl, dtype=np.float64).reshape(-1)
 
         def fn(out):
@@ -222,6 +223,8 @@ def correspond(ctx, res):
                 bad.append({"what": tag, "model": out[:200], "impl": impl[:8].tolist(), "info": info})
                 return
             mv = dec(toks)
+            if pre is not None:
+                mv = pre(mv)
             both_nan = np.isnan(mv) & np.isnan(impl)   # 0/0 in both (M*M underflows): agreement
             sc = np.where(np.isfinite(np.asarray(scale, dtype=np.float64)), scale, 1.0)
             err = np.where(both_nan, 0.0, np.abs(mv - impl) / sc)
@@ -323,6 +326,45 @@ def correspond(ctx, res):
             for j in range(nev):
                 add("mom %s %d " % (F, n) + enc([m0] + mi + list(UV[j])),
                     cmp("generate_momentum", P[j], (3e-7 if f32 else 1e-12) * cq, scale=m0, info=[m0, mi, [], list(UV[j])]))
+
+    # (c2) cal_max_weight(): the optimiser is a parameter (its returned point is recorded), the rescaling is the model's
+    import scipy.optimize as sopt
+    ncal = 0
+    for (m0, mi) in [s_ for s_ in sets if len(s_[1]) >= 3][: (6 if ctx.quick else 40)]:
+        n = len(mi)
+        g = ph.PhaseSpaceGenerator(m0, mi)
+        rec = {}
+        old_min = sopt.minimize
+
+        def wrapped(f, x0, *a, _old=old_min, _rec=rec, **kw):
+            r = _old(f, x0, *a, **kw)
+            _rec["x"], _rec["fun"] = np.array(r.x, dtype=np.float64), float(r.fun)
+            return r
+        sopt.minimize = wrapped
+        try:
+            with Stream(rng), time_limit(GEN_LIMIT):
+                g.cal_max_weight()
+        except ImplTimeout as e:
+            bad.append({"what": "cal_max_weight did not return", "detail": str(e), "info": [m0, mi]})
+            break
+        finally:
+            sopt.minimize = old_min
+        wt_after = float(g.m_wtMax)
+        if "x" not in rec or not np.isfinite(wt_after) or not np.isfinite(rec["fun"]) or rec["fun"] >= 0:
+            stats["skipped"] += 1          # optimiser ended on a NaN / zero weight: nothing to compare
+            continue
+        U = rng.random((4, n - 2)) * 0.9 + 0.05
+        with Stream(rng, script=[U[:, i] for i in range(n - 2)]):
+            ms = g.generate_mass(4)
+        w_after = np.asarray(g.get_weight(ms).numpy(), dtype=np.float64)
+        msn = np.stack([x.numpy() for x in ms], -1)
+        cq = 1.0 + m0 / (m0 - sum(mi))
+        for j in range(4):
+            ncal += 1
+            add("calwt %s %d " % (F, n) + enc([m0] + mi + list(rec["x"]) + list(msn[j])),
+                cmp("cal_max_weight", [1.0, w_after[j]], 1e-9 * cq, scale=np.array([1.0, max(abs(w_after[j]), 1e-300)]),
+                    info=[m0, mi, list(rec["x"]), list(msn[j])], pre=lambda v, w=wt_after: np.array([v[0] / w, v[1]])))
+    res.coverage["cal_max_weight_points_compared"] = ncal
 
     # (d) whole generate(N): same stream of draws -> same accepted events, same number of refills, same momenta
     gens = []
@@ -923,6 +965,12 @@ def search(ctx, res):
     for (m0, mi) in wsets:
         run_case(res, "weight", (m0, mi, base + nc, 3000 if not deep else 30000, deep), stats)
         nc += 1
+    # (3b) opt-in (VERIF_C10_CALMAX=1): the same scan after cal_max_weight() - a candidate finding, see ASSUMPTIONS
+    import os
+    if os.environ.get("VERIF_C10_CALMAX"):
+        for (m0, mi) in wsets[:40]:
+            run_case(res, "weight", (m0, mi, base + nc, 3000, False, True), stats)
+            nc += 1
     # (4) flatness (statistical; false-alarm probability <= 1e-9 per test)
     flat3 = [(1.0, [0.1, 0.2, 0.3]), (5.27934, [0.13957, 0.49368, 0.13957]), (1.86484, [0.49368, 0.13957, 0.0])]
     flat4 = [(1.77686, [0.0, 0.13957, 0.13957, 0.13957]), (3.0, [0.5, 0.0, 0.9, 0.139])]
@@ -990,7 +1038,7 @@ def to_tuple(x):
 
 
 MANIFEST = {
-    "text": "Lean theorems over the reals about the model of tf_pwa.phasespace (templates/Phsp.lean.in, instantiated at R for proofs and at Float for execution): get_p is increasing in M and decreasing in a daughter mass above threshold and is 0 in the clamp branch (q_monotone_M, q_monotone_a, q_clamped); for EVERY number of bodies, all non-negative masses with positive Q value and every mass point generate_mass can produce, 0 <= acceptance weight <= 1 with or without importance factor (weight_le_one, weight_le_one_generated; list induction), while on the bare mass_range box the bound is false (weight_exceeds_one_off_domain); proposal density x weight = C * prod q_i (flat_density); if generate(N) returns it returns exactly N events for every stream of draws and every refill guess (exact_count, refill_enough); the momenta of every generated event add up to (m0,0,0,0) and every particle is on its mass shell (momentum_sum, on_shell, two_body_energy; regular boost branch for the shell clause) and for nested chains of ANY nesting the final-state momenta add up to (m0,0,0,0) when every node's generator output does (chain_momentum_sum, structural induction over the struct; chain_consumes; tree_boost_sum/_shell/_leaves), the mass-shell clause for nested chains is proved per boost step only (chain_on_shell_partial). The same text, fed the uniform numbers recorded from a patched tf.random.uniform, is compared with PhaseSpaceGenerator / generate_phsp (masses, importances, weights, accept/refill sequence, momenta, nested chains). Flatness of the accepted sample and termination of the refill loop are validated statistically, not proved.",
-    "note": "Model = templates/Phsp.lean.in (imports the boost of templates/Kin.lean.in): get_p (3 variants: tensor, Python-float M, all Python floats, with the float32 rounding of an unfixed tree selectable by a flag the harness observes), set_decay/wtMax, get_mass_range, generate_mass, mass_importances, get_weight, flatten_mass, refill loop incl. the n_iter2 guess formula, generate_momentum(_i), _get_generator/_restruct_pi/tree_boost. Uniform numbers are an input (list of draws, one per tf.random.uniform call, shape-checked). Correspondence: n = 2..6, massless and near-threshold daughters (Q down to 1e-7 relative), corner uniforms 0 and 1-2^-53, N in {1,7,1000(,5000)}, nested structs to depth 4; tolerance 1e-12..1e-13 x (1 + m0/Q) relative to m0 (1e-7 on exact corners of the mass range where q is the root of a rounding-level number). Search (model independent, on the implementation): exact count and shapes, |p^2-m^2| and |sum p-(m0,0,0,0)| <= 2e-13 (1+gamma^2), nested intermediate masses, weights in [0,1] on random + corner/edge scans of the uniform cube, chi^2 tests of the 3-body Dalitz plot (uniformised through the analytic marginal) and of m(i,j) spectra for n = 4..6 against numerically integrated recursive phase-space spectra, alarm threshold p < 1e-9 per test. Finding: get_p passes Python-float arguments through float32 (energy conserved only to ~1e-8 m0), key get_p:float32-python-scalars, patch fixes/C10-fix_getp_float32.diff. Not modelled: mass_generator[i] proposals, cal_max_weight.",
+    "text": "Lean theorems over the reals about the model of tf_pwa.phasespace (templates/Phsp.lean.in, instantiated at R for proofs and at Float for execution): get_p is increasing in M and decreasing in a daughter mass above threshold and is 0 in the clamp branch (q_monotone_M, q_monotone_a, q_clamped); for EVERY number of bodies, all non-negative masses with positive Q value and every mass point generate_mass can produce, 0 <= acceptance weight <= 1 with or without importance factor (weight_le_one, weight_le_one_generated; list induction), while on the bare mass_range box the bound is false (weight_exceeds_one_off_domain); proposal density x weight = C * prod q_i (flat_density); if generate(N) returns it returns exactly N events for every stream of draws and every refill guess (exact_count, refill_enough); the momenta of every generated event add up to (m0,0,0,0) and every particle is on its mass shell (momentum_sum, on_shell, two_body_energy; regular boost branch for the shell clause) and for nested chains of ANY nesting the final-state momenta add up to (m0,0,0,0) when every node's generator output does (chain_momentum_sum, structural induction over the struct; chain_consumes; tree_boost_sum/_shell/_leaves), and, when in addition the outputs are on the daughters' mass shells and every nested daughter's boost is in the regular branch, every final particle is on its mass shell and every intermediate state sits on its fixed mass shell and equals the sum of the momenta below it (chain_structure, chain_on_shell, chain_intermediate_mass; structural induction, every nesting); the optional cal_max_weight() only rescales the weight by 1/(1.001 weight(x*)) and keeps it <= 1 iff the optimiser's point x* is within 0.1% of the maximum (calmax_rescales, calmax_weight_le_one_iff, calmax_weight_exceeds_one_example). The same text, fed the uniform numbers recorded from a patched tf.random.uniform, is compared with PhaseSpaceGenerator / generate_phsp (masses, importances, weights, accept/refill sequence, momenta, nested chains). Flatness of the accepted sample and termination of the refill loop are validated statistically, not proved.",
+    "note": "Model = templates/Phsp.lean.in (imports the boost of templates/Kin.lean.in): get_p (3 variants: tensor, Python-float M, all Python floats, with the float32 rounding of an unfixed tree selectable by a flag the harness observes), set_decay/wtMax, get_mass_range, generate_mass, mass_importances, get_weight, flatten_mass, refill loop incl. the n_iter2 guess formula, generate_momentum(_i), _get_generator/_restruct_pi/tree_boost. Uniform numbers are an input (list of draws, one per tf.random.uniform call, shape-checked). Correspondence: n = 2..6, massless and near-threshold daughters (Q down to 1e-7 relative), corner uniforms 0 and 1-2^-53, N in {1,7,1000(,5000)}, nested structs to depth 4; tolerance 1e-12..1e-13 x (1 + m0/Q) relative to m0 (1e-7 on exact corners of the mass range where q is the root of a rounding-level number). Search (model independent, on the implementation): exact count and shapes, |p^2-m^2| and |sum p-(m0,0,0,0)| <= 2e-13 (1+gamma^2), nested intermediate masses, weights in [0,1] on random + corner/edge scans of the uniform cube, chi^2 tests of the 3-body Dalitz plot (uniformised through the analytic marginal) and of m(i,j) spectra for n = 4..6 against numerically integrated recursive phase-space spectra, alarm threshold p < 1e-9 per test. Finding (fixed in /repo): get_p passed Python-float arguments through float32 (energy conserved only to ~1e-8 m0), key get_p:float32-python-scalars. cal_max_weight() is modelled with the scipy optimiser's returned point as a parameter (recorded and fed to the model); that the optimiser finds the global maximum is not verified and often false on the implementation (candidate finding cal_max_weight:weight-range, opt-in scan VERIF_C10_CALMAX=1, default paths never call it). Not modelled: user-supplied mass_generator[i] proposals (no 1/g correction in the code by design; weight_le_one still covers any mass point inside the domain).",
     "technique": "Lean 4 proof over the reals (list induction, polynomial certificates, C11 boost invariance) of one template instantiated at Float for differential correspondence on a harness-fed random stream; statistical validation of flatness",
 }
